@@ -148,11 +148,22 @@ func (p *Parser) Errors() []string {
 // parsing, printing and expanding a tree recurse on its depth and Go stack overflows are fatal.
 const MaxDepth = 10_000
 
+// MaxErrors is the number of errors after which parsing gives up: each one quotes its line, on one very
+// long line of garbage that is quadratic in time and memory.
+const MaxErrors = 100
+
 func (p *Parser) addError(msg string) {
 	if p.aborted {
 		return // only the "too deep" error is kept, not the ones caused by unwinding.
 	}
 	p.errors = append(p.errors, msg)
+	if len(p.errors) >= MaxErrors {
+		p.errors = append(p.errors, fmt.Sprintf("too many errors (%d), giving up", MaxErrors))
+		p.aborted = true // stop consuming input, like when nested too deep.
+		p.continuationNeeded = false
+		p.curToken = token.EOFT
+		p.peekToken = token.EOFT
+	}
 }
 
 func (p *Parser) nextToken() {
